@@ -292,11 +292,11 @@ def verify_tpm(
             f"Certificate missing extension {ExtensionOID.EXTENDED_KEY_USAGE} (TPM)"
         )
 
-    ext_key_usage_oid = ext_extended_key_usage[0].dotted_string
+    ext_key_usage_oids = [oid.dotted_string for oid in ext_extended_key_usage]
 
-    if ext_key_usage_oid != "2.23.133.8.3":
+    if "2.23.133.8.3" not in ext_key_usage_oids:
         raise InvalidRegistrationResponse(
-            f'Certificate Extended Key Usage OID "{ext_key_usage_oid}" was not "2.23.133.8.3" (TPM)'
+            f'Certificate Extended Key Usage OIDs {ext_key_usage_oids} did not contain "2.23.133.8.3" (TPM)'
         )
 
     try:
